@@ -678,3 +678,66 @@ def check_C12(sc, v, tier, seed, replay):
 def online_num(i):
     import online
     return online.num(i)
+
+
+# ------------------------------------------------------------------------------------------------
+# C14  NGAP decoding is total
+# ------------------------------------------------------------------------------------------------
+def check_C14(sc, v, tier, seed, replay):
+    import concurrent.futures as cf
+    import glob
+    import shutil
+    sc.build(["rec-total"])
+    seeds = os.path.join(sc.work, "seeds.ndjson")
+    sc.run("rec-total", ["-seed", seed, "-seeds", seeds, "-per", 1 if tier == "quick" else 4])
+    chunks, seedlines = vlib.split_lines(seeds, vlib.NCPU, sc.work, "seeds")
+    budget = 24 if tier == "quick" else 400
+
+    def gen(c):
+        d = sc.specdir()
+        outp = c[0].replace("seeds-", "cases-")
+        r = vlib.run_tlc(d, "PerFault", vlib.cfg_text({"TracePath": c[0], "OutPath": outp, "Budget": budget}, post="Consumed"), timeout=2400, heap="4g")
+        shutil.rmtree(d, ignore_errors=True)
+        if not r.ok:
+            raise HarnessError("PerFault failed: " + r.error)
+        return outp, r
+    with cf.ThreadPoolExecutor(max_workers=vlib.NCPU) as ex:
+        gens = list(ex.map(gen, chunks))
+    v.add_tlc([g[1] for g in gens])
+    casefiles = sorted(f for outp, _ in gens for f in glob.glob(outp + ".*"))
+    allcases = os.path.join(sc.work, "allcases.ndjson")
+    with open(allcases, "w") as o:
+        for f in casefiles:
+            o.write(open(f).read())
+    obsp = os.path.join(sc.work, "total.ndjson")
+    _run_with_restarts(sc, "rec-total", ["-replay", allcases], obsp)
+    nrand = 6000 if tier == "quick" else 600000
+    obsr = os.path.join(sc.work, "total-random.ndjson")
+    _run_with_restarts(sc, "rec-total", ["-seed", seed, "-random", nrand], obsr)
+    with open(obsp, "a") as o:
+        o.write(open(obsr).read())
+    results, rejects, lines = vlib.validate_trace(sc, "Totality", obsp, constants={"MaxMs": 200, "MaxAllocKiB": 65536}, timeout=2400)
+    v.add_tlc(results)
+    v.traces = len(results)
+    v.evaluations = len(lines)
+    kinds = {}
+    outcomes = {}
+    for l in lines:
+        e = json.loads(l)
+        v.distinct.add(e["id"])
+        kinds[e["kind"]] = kinds.get(e["kind"], 0) + 1
+        outcomes[e["outcome"]] = outcomes.get(e["outcome"], 0) + 1
+    v.level_override = "fault_enumeration"
+    v.extra["fault_kinds"] = kinds
+    v.extra["outcomes"] = outcomes
+    v.extra["seed_messages"] = len(seedlines)
+    v.samples = [json.loads(lines[0]), json.loads(lines[len(lines) // 2])]
+    v.rule = ("faults generated by PerFault.tla from one|four valid encodings of every NGAP message type: prefixes, single-bit flips, octets set to "
+              "00/7F/80/FF/C1/C4/C5, adjacent octets set to FFFF, one-octet insertions and deletions (evenly spaced positions, budget per kind), "
+              "plus seeded random strings up to 4 KiB, multi-byte corruptions and splices; each run under a 3 s watchdog with wall time and "
+              "allocation measured; distinct = distinct case id (all non-trivial: every case differs from a valid encoding or is random)")
+    v.assumptions = ["bounds judged by Totality.tla: 200 ms and 64 MiB per call (the decoder allocates a list of the claimed size before reading it: up to 65535 elements of about 176 octets = 11 MiB for a 7-octet input, which is the schema's own list-size limit, not unbounded)", "coverage-guided fuzzing is not used (DESIGN section 9)"]
+
+    def key(r, e):
+        return "Decode:%s:%s" % (e.get("kind", "")[:8], r["why"].split(" a ")[0][:40])
+    _reject_to_violation(v, rejects, key)
